@@ -11,6 +11,9 @@ CONSTANTS
   Dev_IdZeroAfterMainRemoved = FALSE
   Dev_TerminateKeepsObjects = FALSE
   Dev_FailedAddLeavesEntry = FALSE
+  ClientSide = FALSE
+  Dev_ClientRemoveKeepsEntry = FALSE
+  Dev_ClientLateCallDropped = FALSE
 CONSTRAINT Bounded
 CONSTRAINT Short
 INVARIANTS UniqueLiveIds TerminateHookExactlyOnce SubscribersTold NoCrash
